@@ -7,12 +7,18 @@ IMPORTS = "lib.Path model.CFS_file model.CFS_tree model.CFS_inst model.C08_run m
 def run(ctx):
     n = {"quick": 160, "thorough": 4000}[ctx.tier]
     ops = {"quick": 50, "thorough": 200}[ctx.tier]
+    nrace = {"quick": 12, "thorough": 300}[ctx.tier]
 
     def stages(ctx, mult, suffix, off):
         ctx.stage("c13" + suffix, "sdk/go/arvados", "arvados", CFS + ["C13/zz_verif_c13_test.go"], "TestVerifC13$",
                   n * mult, HDR.format(imports=IMPORTS), seed_offset=off, shard=20,
                   env={"VERIF_STAGE": "c13" + suffix, "VERIF_OPS": str(ops)})
-    return standard(ctx, "C13", ["model/CFS_run.vo"], stages,
+        # real goroutines + race detector + real throttle; every worker is one case of the C08 evaluator
+        ctx.stage("c13race" + suffix, "sdk/go/arvados", "arvados", CFS + ["C13/zz_verif_c13race_test.go"], "TestVerifC13Race$",
+                  nrace * mult, HDR.format(imports="lib.Path model.CFS_file model.CFS_tree model.CFS_inst model.C08_run"),
+                  seed_offset=off, shard=10, race=True, timeout=1500,
+                  env={"VERIF_STAGE": "c13race" + suffix, "VERIF_OPS": str(ops)})
+    return standard(ctx, "C13", ["model/CFS_run.vo", "model/C08_run.vo"], stages,
                     rule="controlled schedules: foreground operations through several handles interleaved with the completion "
                          "(any order/delay, failure modes) of background Keep writes, explicit flushes and saves; "
                          "non-trivial = at least one background write completed during the history",
